@@ -28,9 +28,8 @@ def extract(ck):
             S(t["_total"]), L(t["_resolutions"], S),
             L(plist, lambda e: "(%d, %d, %s)" % (e[0], e[1], L(e[2], str))))
     except (X.ExtractError, Exception) as e:
-        ck.tie_fail("extraction of the twod2 tables failed: %r" % e)
-        return None
-    ck.gen("C19", body)
+        return ck.tie_fallback("C19", "extraction of the twod2 tables failed: %r" % e)
+    ck.gen("C19", body, facts=t)
     return t
 
 
